@@ -468,6 +468,12 @@ impl CERT {
             .next()
             .ok_or(ParseError::Message("CERT data missing"))?;
 
+        // RFC 4398 2.2: the base 64 text "may be divided into any number of white-space-separated
+        // substrings, down to single base-64 digits, which are concatenated"
+        let token = iter.fold(String::from(token), |mut all, part| {
+            all.push_str(part);
+            all
+        });
         let cert_data = data_encoding::BASE64
             .decode(token.as_bytes())
             .map_err(|_| ParseError::Message("Invalid base64 CERT data"))?;
